@@ -193,6 +193,16 @@ class C02(Plugin):
             for s in START:
                 out.append({"k": 1, "state": s, "cur": ["tag", 0, "script", [], 0], "tmp": "", "cdata": 0,
                             "text": t + ">x"})
+        # numeric references at the boundaries of every range the standard distinguishes, decimal and hexadecimal
+        for v in [0, 1, 9, 10, 13, 31, 32, 127, 128, 129, 159, 160, 0xD7FF, 0xD800, 0xDFFF, 0xE000, 0xFDD0, 0xFFFE, 0xFFFF,
+                  0x10000, 99999, 100000, 999999, 1000000, 1114109, 1114111, 1114112, 9999999, 10000000, 0xFFFFF,
+                  0x100000, 0xFFFFFF, 0x1000000, 0xFFFFFFF, 0x10000000, 2 ** 32]:
+            for ref in ("&#%d;" % v, "&#x%x;" % v, "&#%d" % v, "&#X%X " % v, "&#000%d;" % v):
+                out.append({"k": 1, "state": "dataState", "cur": None, "tmp": "", "cdata": 0, "text": "a" + ref + "b"})
+                out.append({"k": 1, "state": "rcdataState", "cur": None, "tmp": "", "cdata": 0,
+                            "text": "<p t=\"" + ref + "\">"})
+                out.append({"k": 0, "state": "attributeValueUnQuotedState", "cur": ["tag", 0, "p", [["t", ""]], 0],
+                            "tmp": "", "cdata": 0, "text": ref + ">"})
         # every state once on every single character of the alphabet (model vs implementation)
         rng_cur = __import__("random").Random(5)
         for s in self.st():
